@@ -159,6 +159,31 @@ def execute(scn, keep_log=False, hook=None):
     if st.tables() != t_before:
         viol.append({'clause': 'lasting-state', 'rank': 2, 'feat': {'phase': 'sweep'}, 'msg': 'tables changed by single frames: %s -> %s' % (t_before, st.tables())})
 
+    # ---- single transport-protocol frames (RTS, CTS, DT, end-of-message ack, abort, BAM-less DT) addressed to addresses nobody
+    #      local owns: no delivery, no transmission, no state
+    foreign = [a for a in (0x99, 0x9A, 254) if not any(ca.state == 2 and ca.device_address == a for ca in st.cas)
+               and not any(isinstance(x, int) and x == a for x in cfg['ecu_listeners'])]
+    n0 = len(w.deliveries)
+    tx0 = len(own_tx())
+    for dest in foreign:
+        if not fd:
+            raws = [(rc.PF_TP_CM, rc.tp_rts(20, 3, 255, 0xD000)), (rc.PF_TP_CM, rc.tp_cts(2, 1, 0xD000)), (rc.PF_TP_DT, rc.tp_dt(1, [1] * 7)),
+                    (rc.PF_TP_CM, rc.tp_eoma(20, 3, 0xD000)), (rc.PF_TP_CM, rc.tp_abort(3, 0xD000))]
+        else:
+            raws = [(rc.PF_FD_TP_CM, rc.fd_rts(0, 100, 2, 255, 0xD000)), (rc.PF_FD_TP_CM, rc.fd_cts(0, 1, 2, 0xD000)), (rc.PF_FD_TP_DT, rc.fd_dt(0, 1, [1] * 60)),
+                    (rc.PF_FD_TP_CM, rc.fd_eoms(0, 100, 2, 0xD000)), (rc.PF_FD_TP_CM, rc.fd_eoma(0, 100, 2, 0xD000)), (rc.PF_FD_TP_CM, rc.fd_abort(0, 3, 0xD000)),
+                    (rc.PF_MULTI_PG, rc.mpg_encode([(0xD000, [1, 2, 3])]))]
+        for sa in (X, P1):
+            for pf, d in raws:
+                bus.send('X', rc.make_id(7, 0, pf, dest, sa), True, bytes(d), fd)
+                stats['foreign_tp_frames'] += 1
+        sim.run_for(0.001)
+    sim.run_for(0.002)
+    if len(w.deliveries) != n0 or len(own_tx()) != tx0 or st.tables() != t_before:
+        viol.append({'clause': 'foreign-tp-frame-processed', 'rank': 1,
+                     'msg': 'transport frames to unowned addresses %s caused %d deliveries, %d transmissions (%s), tables %s' % (
+                         foreign, len(w.deliveries) - n0, len(own_tx()) - tx0, own_tx()[tx0:][:1], st.tables())})
+
     # ---- flagged frames: 11-bit, remote, error must cause nothing at all
     local = [ca.device_address for ca in st.cas if ca.state == 2] + [255]
     n0 = len(w.deliveries)
@@ -195,7 +220,7 @@ def execute(scn, keep_log=False, hook=None):
         peak = max(peak, tb['rcv'] + tb['snd'])
         if not p1.tx and not p2.tx and not p1.rx and not p2.rx:
             break
-    stats['foreign_tp_frames'] = len(bus.frames) - nf
+    stats['foreign_tp_frames'] += len(bus.frames) - nf
     if not any(r['data'] == bytes(d1) for r in p2.received):
         viol.append({'clause': 'harness-foreign-session-failed', 'rank': 9, 'msg': 'reference nodes could not complete their own transfer: %s %s' % (p1.protocol_errors[:1], p2.protocol_errors[:1])})
     if len(w.deliveries) != n0:
